@@ -234,6 +234,8 @@ class Prog:
             pairs = [(rng.randrange(len(A['legs'])), rng.randrange(len(B['legs'])))]
         ka = [i for i in range(len(A['legs'])) if i not in [p[0] for p in pairs]]
         kb = [j for j in range(len(B['legs'])) if j not in [p[1] for p in pairs]]
+        if len(ka) + len(kb) > 4 and not bad:
+            return self.new()                       # keep ranks (and dense sizes) small
         std = [p[0] for p in pairs] == list(range(len(A['legs']) - len(pairs), len(A['legs']))) and \
             [p[1] for p in pairs] == list(range(len(pairs)))
         if std and rng.random() < 0.7:
@@ -495,4 +497,17 @@ def gen_f5_like(rng):
     if op == 'iadd_prefactor_other':
         st['s'] = rng.choice([1.0, 2.0, -1.0, ['c', 0.0, 1.0]])
     p.push(st, {'kind': 'none'} if op.startswith('i') else p.arr(types, p.regs[a]['labels']))
+    return p.case()
+
+
+def gen_self_alias(rng):
+    """targeted: a.iadd_prefactor_other(s, a) / a + a / tensordot(a, a) with the SAME object on both sides"""
+    p = Prog(rng, empty_blocks=False, bad_rate=0.0)
+    a = p.new(dtype=rng.choice(['float64', 'complex128', 'float64', 'int64']), fill=1.0)
+    A = p.regs[a]
+    op = rng.choice(['iadd_prefactor_other', 'iadd_prefactor_other', 'iadd', 'isub', 'add'])
+    st = {'op': op, 'a': a, 'b': a}
+    if op == 'iadd_prefactor_other':
+        st['s'] = rng.choice([['c', 1.0, -2.0], ['c', 0.0, 1.0], 2.0, -1.0, ['c', 0.5, 0.5]])
+    p.push(st, {'kind': 'none'} if op != 'add' else p.arr(A['legs'], A['labels']))
     return p.case()
